@@ -246,7 +246,8 @@ class Gen:
 
 
 SCEN = [(8, "macro"), (4, "rept"), (4, "irp"), (3, "irpn"), (3, "irpc"), (3, "while"), (3, "rec"), (3, "shift"),
-        (3, "many"), (2, "defmac"), (3, "include"), (2, "binclude"), (3, "glob"), (1, "intlabel"), (3, "shadow")]
+        (3, "many"), (2, "defmac"), (3, "include"), (2, "binclude"), (3, "glob"), (1, "intlabel"), (3, "shadow"),
+        (2, "volume")]
 
 
 class Body:
@@ -817,6 +818,8 @@ def scenario(g, b, kind):
         return glob_scenario(g, b)
     if kind == "intlabel":
         return intlabel_scenario(g, b)
+    if kind == "volume":
+        return volume_scenario(g, b)
     raise ValueError(kind)
 
 
@@ -1096,6 +1099,55 @@ def include_scenario(g, b):
                                           (c_wrap(b, ctx) if d.bool(0.5) else [])) + "\n"
         g.files[fn + ext] = "\n".join([b.data_line(ctx), g.stmt("include", '"%s.inc"' % fn2), b.data_line(ctx)]) + "\n"
         lines.append(g.stmt("include", ref))
+    return lines
+
+
+def volume_scenario(g, b):
+    """many executions of one construct in a single run: REPT n1 { REPT n2 { INCLUDE / macro call / IRP / WHILE /
+    BINCLUDE } } with n1*n2 up to 400 (counts 0..40 per level, as in the property's scope): whatever a construct
+    books per execution (include depth, nesting level, expansion counters) has to be given back every time"""
+    d = g.d
+    ctx = top_ctx()
+    n1 = d.weighted([(3, d.int(20, 40)), (2, 40), (2, d.int(2, 19))])
+    n2 = d.weighted([(3, d.int(5, 10)), (2, d.int(1, 4)), (1, d.int(11, 20))])
+    while n1 * n2 > 420:
+        n2 -= 1
+    bd = d.choice(g.c["byte"])
+    cnt = g.fresh("VC")
+    inner = d.weighted([(5, "include"), (3, "macro"), (2, "irp"), (1, "while"), (1, "binclude"), (2, "incmacro")])
+    pre, body = [cnt + g.sp() + "set" + g.sp() + "0"], []
+    step = [cnt + g.sp() + "set" + g.sp() + cnt + "+1", g.stmt(bd, "%s&255" % cnt)]
+    if inner in ("include", "incmacro"):
+        fn = g.fresh("inc").lower()
+        if inner == "include":
+            g.files[fn + ".inc"] = "\n".join(step) + "\n"
+        else:
+            mn = g.fresh("vm")
+            p = g.param_names(1, [])[0]
+            pre += [mn + g.sp() + "macro" + g.sp() + p] + step + [g.stmt(bd, g.spell(p) + "+1"), b.endm()]
+            g.files[fn + ".inc"] = g.stmt(mn, str(d.int(0, 50))) + "\n"
+        body = [g.stmt("include", d.choice(['"%s.inc"' % fn, fn]))]
+    elif inner == "macro":
+        mn, mn2 = g.fresh("vm"), g.fresh("vm")
+        p = g.param_names(1, [])[0]
+        pre += [mn + g.sp() + "macro" + g.sp() + p] + step + [g.stmt(bd, g.spell(p) + "+1"), b.endm()]
+        pre += [mn2 + g.sp() + "macro" + g.sp() + p, g.stmt(mn, g.spell(p) + "+2"), b.endm()]
+        body = [g.stmt(d.choice([mn, mn2]), str(d.int(0, 50)))]
+    elif inner == "irp":
+        p = g.param_names(1, [])[0]
+        body = [g.stmt("irp", "%s,%d,%d" % (p, d.int(0, 50), d.int(0, 50)))] + step + [g.stmt(bd, g.spell(p)), b.endm()]
+    elif inner == "while":
+        w = g.fresh("VW")
+        body = [w + g.sp() + "set" + g.sp() + "0", g.stmt("while", "%s<2" % w)] + step + \
+               [w + g.sp() + "set" + g.sp() + w + "+1", b.endm()]
+    else:
+        fn = g.fresh("bin").lower() + ".bin"
+        g.bins[fn] = bytes(d.int(0, 255) for _ in range(d.int(1, 3))).hex()
+        body = [g.stmt("binclude", '"%s"' % fn)] + step
+    lines = pre + [g.stmt("rept", str(n1)), g.stmt("rept", str(n2))] + body + [b.endm()]
+    if d.bool(0.5):
+        lines += step
+    lines += [b.endm()]
     return lines
 
 
